@@ -5,7 +5,14 @@ C14.REGISTRY - every type-system validation rule of the October 2021 spec (secti
 one diagnostic of the matching kind constructed in a function reachable from the schema build /
 validation entries and, where the rule concerns a particular kind of definition, through the
 validator of that kind.  A rule with no reachable handler accepts every schema that breaks only
-that rule.  This is the same necessary condition as C17.REGISTRY, for the type system."""
+that rule.  This is the same necessary condition as C17.REGISTRY, for the type system.
+C14.KINDGATE - a contradiction rule over the validators reachable from validate_schema: where a
+referenced type name is resolved (schema.types.get / get_interface / get_object .., is_output_type,
+is_input_type) and SOME way of failing to resolve to the required kind is reported within one loop
+iteration, EVERY way of failing is (`not defined` and `defined but of another kind` alike), unless
+the name is a built-in scalar that validate_schema inserts afterwards (record_type_ref).  A
+validator that reports `undefined` but is silent on `wrong kind` accepts e.g. `type T implements
+SomeObjectType`."""
 import re
 
 from ..core import AnchorError
@@ -68,6 +75,73 @@ REGISTRY = [
 ]
 
 
+EXT = ("Scalar", "Object", "Interface", "Union", "Enum", "InputObject")
+PUSH = r"DiagnosticList::push$"
+RESOLVER = r"(get_interface|get_object|get_union|get_enum|get_scalar|get_input_object|IndexMap::<K, V, S>::get)@\d+"
+
+
+def _neg_atoms(atoms):
+    """the edge facts of a path that say: the referenced name did not resolve to the wanted kind"""
+    out = []
+    for f in atoms:
+        if f[0] == "variant" and f[2] == "None" and re.search(RESOLVER + "$", f[1]):
+            out.append(f)
+        elif f[0] in ("variant", "variant_in") and re.search(r"IndexMap::<K, V, S>::get@\d+\.as:Some\.0$", f[1]):
+            names = (f[2],) if f[0] == "variant" else f[2]
+            if all(n in EXT for n in names) and len(names) >= 2:
+                out.append(f)
+        elif f[0] == "callbool" and re.search(r"is_(output|input)_type$", f[1]) and f[3] is False:
+            out.append(f)
+        elif f[0] == "callbool" and re.search(r"Option::<T>::is_some$", f[1]) and f[3] is False and re.search(RESOLVER, f[2][0] or ""):
+            out.append(f)
+        elif f[0] == "callbool" and re.search(r"Option::<T>::is_none$", f[1]) and f[3] is True and re.search(RESOLVER, f[2][0] or ""):
+            out.append(f)
+    return out
+
+
+def rule_kindgate(prog, rep):
+    rep.floor("C14.KINDGATE", 12)
+    from ..core import Undecided
+    from ..flow import _strip, loop_headers
+    from ..tables import enum_paths
+    vs = prog.fn(r"^apollo_compiler::schema::validation::validate_schema$")
+    reach = prog.reachable([vs])
+    for f0 in sorted(prog.fns.values(), key=lambda g: g.name):
+        if f0.uid not in reach or f0.kind not in ("fn", "assoc_fn"):
+            continue
+        if not re.match(r"apollo_compiler::validation::(object|interface|union_|enum_|input_object|field|schema|scalar|argument)::", f0.name):
+            continue
+        f = prog.inline(f0, keep=PUSH + r"|record_type_ref$")
+        hs = loop_headers(f)
+        regions = [("loop@%d" % h, some, {h}) for h, (some, _none, _c) in sorted(hs.items())] + [("body", 0, set(hs.keys()))]
+        pushes = set(c.block for c in f.live_calls() if re.search(PUSH, c.name))
+        for label, start, stops in regions:
+            try:
+                ps = enum_paths(f, start=start, stops=stops, inner_loops="cut", max_paths=4000)
+            except Undecided as e:
+                rep.note("C14.KINDGATE: %s %s not enumerated (%s)" % (f0.name.split("::")[-1], label, str(e)[:60]))
+                continue
+            rows = []
+            for atoms, _end, path in ps:
+                st = _strip(atoms)
+                na = _neg_atoms(st)
+                if not na:
+                    continue
+                if any(x[0] == "callbool" and re.search(r"record_type_ref$", x[1]) and x[3] is True for x in st):
+                    continue  # a built-in scalar that validate_schema inserts afterwards
+                rows.append((na, bool(set(path) & pushes)))
+            reporting = [r for r in rows if r[1]]
+            silent = [r for r in rows if not r[1]]
+            if not reporting:
+                continue
+            if silent:
+                what = sorted(set("%s %s" % (a[1].split("::")[-1], a[2] if a[0] != "callbool" else a[3]) for r in silent for a in r[0]))
+                rep.finding("C14.KINDGATE", f0.name, "silent-case:" + label.split("@")[0],
+                            "a referenced type name that fails to resolve to the required kind is reported on %d path(s) but silently accepted on %d (%s): one way of being wrong (typically `defined, but of another kind`) passes validation" % (len(reporting), len(silent), "; ".join(what)[:200]), f0.loc())
+            else:
+                rep.instance("C14.KINDGATE", "%s %s: all %d ways of failing to resolve to the required kind report" % (f0.name.split("::")[-1], label, len(reporting)))
+
+
 def run(prog, rep):
     rep.floor("C14.REGISTRY", 40)
     entries = [prog.fn(r"^apollo_compiler::schema::validation::validate_schema$"),
@@ -101,4 +175,5 @@ def run(prog, rep):
             rep.finding("C14.REGISTRY", "spec:" + rule.split(":")[0], "no-handler:" + "/".join(variants) + ("@" + via.split("::")[-1] if via else ""),
                         "no diagnostic %s is constructed %s%s: a schema that breaks only `%s` validates" % (
                             "/".join(variants), where, (" (only constructed in %s)" % ", ".join(other)) if other else "", rule), None)
+    rule_kindgate(prog, rep)
     rep.note("presence of a handler per rule is a necessary condition only; agreement of verdicts with graphql-js is not decided")
